@@ -15,6 +15,7 @@ import (
 	"strconv"
 	"strings"
 
+	"github.com/robertkrimen/otto"
 	"github.com/robertkrimen/otto/ast"
 	"github.com/robertkrimen/otto/parser"
 	"github.com/robertkrimen/otto/token"
@@ -31,13 +32,13 @@ func main() {
 
 // tags shared with coq/C03/Tree.v
 const (
-	tId, tNum, tStr, tRegex, tNull, tBool, tThis   = 1, 2, 3, 4, 5, 6, 7
-	tParen                                         = 9 // only in decorated (rendering) trees
-	tBin, tUn, tPost, tCond, tAsg, tDot, tIdx       = 10, 11, 12, 13, 14, 15, 16
-	tCall, tNew                                    = 17, 18
-	tNewNoArgs                                     = 19 // rendering only: "new f" without argument list
-	tArr, tHole, tObj, tProp, tFun                 = 20, 21, 22, 23, 24
-	tBad                                           = 99
+	tId, tNum, tStr, tRegex, tNull, tBool, tThis = 1, 2, 3, 4, 5, 6, 7
+	tParen                                       = 9 // only in decorated (rendering) trees
+	tBin, tUn, tPost, tCond, tAsg, tDot, tIdx    = 10, 11, 12, 13, 14, 15, 16
+	tCall, tNew                                  = 17, 18
+	tNewNoArgs                                   = 19 // rendering only: "new f" without argument list
+	tArr, tHole, tObj, tProp, tFun               = 20, 21, 22, 23, 24
+	tBad                                         = 99
 )
 
 type N struct {
@@ -246,6 +247,9 @@ func needSpace(a, b tok) bool {
 var sepsPlain = []string{" ", "  ", "\t", "\v", "\f", "\u00a0", "\ufeff", "/**/", "/* c */", " /* a*b / c */ ", "/*'*/", "/*\"*/"}
 var sepsNL = []string{"\n", "\r\n", "\r", "\u2028", "\u2029", " \n ", "// c\n", "//\n", " // x = 1; /* \n", "\n\n", "/* c */\n", "\n/* c */"}
 
+// the caller appends its own ending: no random trailing white space / comment
+var noTail bool
+
 // render the tokens to text; sets nl flags. density: 0 = minimal, 1 = mixed, 2 = heavy
 func renderTokens(r *rand.Rand, toks []tok, density int, allowNL bool) string {
 	var b strings.Builder
@@ -286,7 +290,7 @@ func renderTokens(r *rand.Rand, toks []tok, density int, allowNL bool) string {
 		b.WriteString(sep)
 		b.WriteString(toks[i].text)
 	}
-	if density > 0 && r.Intn(5) == 0 {
+	if density > 0 && !noTail && r.Intn(5) == 0 {
 		b.WriteString(Pick(r, []string{" ", "\n", " // end", "/* end */", "\n\n"}))
 	}
 	return fixCR(b.String())
@@ -463,6 +467,7 @@ type gen struct {
 	full      bool // array / object / function literals allowed (statement cases)
 	semiStyle int  // 0 random per statement, 1 always ";", 2 omit where possible, 3 line terminators
 	pendingNL bool
+	vm        *otto.Otto
 }
 
 func bitsOf(f float64) int64 { return int64(Dbits(f)) }
@@ -1099,9 +1104,9 @@ func id(ix int) *N { return &N{Tag: tId, Vals: []int64{int64(ix)}, Text: idents[
 
 func runC03(env *Env) {
 	env.Import = "Otto.C03.Corr"
-	env.Rule = "pinned witnesses of every listed finding; every ordered pair of binary operators in both nestings, every unary x binary adjacency, every binary operator against ?: = postfix call new member, every pair of assignment operators; boundary numerals (2^53, 2^63, 2^64, range ends, halfway cases, every syntactic form) and random ones; every \\xHH and octal escape of every code unit below 256, every single-character escape, random strings with seeded escape forms and line continuations; every ordered pair of 41 statement forms under each way of ending a statement (semicolon, line terminator, nothing before } or end of input); then random expression trees of depth <= 6 and random programs (all ES5 statement forms, function/array/object literals with getters and setters, for-header no-in contexts) each rendered with seeded redundant parentheses, white space, comments, line terminators and literal spellings; non-trivial = distinct rendering whose tree has depth >= 3 (expressions), >= 2 statements or depth >= 4 (programs), every literal case"
+	env.Rule = "pinned witnesses of every listed finding; every ordered pair of binary operators in both nestings, every unary x binary adjacency, every binary operator against ?: = postfix call new member, every pair of assignment operators; boundary numerals (2^53, 2^63, 2^64, range ends, halfway cases, every syntactic form) and random ones; every \\xHH and octal escape of every code unit below 256, every single-character escape, random strings with seeded escape forms and line continuations; every ordered pair of 41 statement forms under each way of ending a statement (semicolon, line terminator, nothing before } or end of input); every statement form as the last statement of a FunctionBody x 24 endings (// comment without line terminator, /* */, LS, PS, CR, CRLF, white space) through parser.ParseFunction, a function declaration in a program, new Function(...) and Function(...); a regular expression literal (patterns starting with = so that the scanner first reads /=, and others, with and without flags) ending each kind of statement x each statement end (; each line terminator, comment + line terminator, }, end of input) x 14 following statement forms incl. prefix ++/--; then random function bodies through the same entry points, random expression trees of depth <= 6 and random programs (all ES5 statement forms, function/array/object literals with getters and setters, for-header no-in contexts) each rendered with seeded redundant parentheses, white space, comments, line terminators and literal spellings; non-trivial = distinct rendering whose tree has depth >= 3 (expressions), >= 2 statements or depth >= 4 (programs), every literal case"
 	env.Extra["forced_coverage"] = map[string]int{"binary_operator_pairs": len(binops) * len(binops) * 2, "unary_binary": len(unops) * len(binops) * 2,
-		"assignment_pairs": len(asgops) * len(asgops), "statement_forms": 41, "escape_sweep_units": 256}
+		"assignment_pairs": len(asgops) * len(asgops), "statement_forms": 41, "escape_sweep_units": 256, "function_body_endings": len(bodySuffixes)}
 	g := &gen{env: env, r: env.Rng, cov: map[string]int{}}
 	r := env.Rng
 
@@ -1177,6 +1182,8 @@ func runC03(env *Env) {
 	}
 
 	g.statementPairs()
+	g.functionBodies(sampleStatements)
+	g.regexStatementEnds()
 
 	for env.Count() < env.N {
 		switch k := r.Intn(100); {
@@ -1184,6 +1191,8 @@ func runC03(env *Env) {
 			g.randomNumCase()
 		case k < 20:
 			g.randomStrCase()
+		case k < 27:
+			g.randomFunBodyCase()
 		case k < 55:
 			d := 1 + r.Intn(3)
 			g.progCase(g.stmtList(d, ctx{}, true, 1+r.Intn(4)), fmt.Sprintf("program-depth%d", d), r.Intn(3), r.Intn(4))
@@ -1234,8 +1243,41 @@ func (g *gen) pinnedPrograms() {
 
 // every ordered pair of statement kinds next to each other, under each way of ending a statement
 func (g *gen) statementPairs() {
+	c := id(2)
+	samples := sampleStatements
+	n := len(samples())
+	for i := 0; i < n; i++ {
+		for j := 0; j < n; j++ {
+			for style := 1; style <= 3; style++ {
+				if g.env.Tier != "thorough" && style != 1+(i+j+int(g.env.Seed%3))%3 {
+					continue // quick tier: one style per pair, rotating with the seed
+				}
+				x, y := samples()[i], samples()[j]
+				// context: function f(){ z: while (c) { X Y } }
+				body := nd(tWhile, nil, c, &N{Tag: tBlock, Kids: []*N{x, y}})
+				prog := []*N{{Tag: tFunDecl, Vals: []int64{34}, Kids: []*N{{Tag: tLabel, Vals: []int64{5}, Kids: []*N{body}}}}}
+				g.progCase(prog, "statement-pair", g.r.Intn(2), style)
+			}
+		}
+	}
+	// function declarations and directive-like strings as source elements
+	a := id(0)
+	for style := 1; style <= 3; style++ {
+		for _, x := range samples() {
+			if x.Tag == tReturn || x.Tag == tBreak || x.Tag == tContinue {
+				continue // only valid inside a function / loop
+			}
+			f := &N{Tag: tFunDecl, Vals: []int64{35, 0}, Kids: []*N{nd(tReturn, nil, a)}}
+			g.progCase([]*N{x, f, samples()[0]}, "statement-pair", 1, style)
+			g.progCase([]*N{f, x}, "statement-pair", 1, style)
+		}
+	}
+}
+
+// one specimen of every statement form (fresh nodes on every call)
+func sampleStatements() []*N {
 	a, b, c := id(0), id(1), id(2)
-	samples := func() []*N {
+	{
 		return []*N{
 			es(asg(a, b)),
 			es(nd(tCall, nil, id(34), a)),
@@ -1278,32 +1320,6 @@ func (g *gen) statementPairs() {
 			nd(tSwitch, nil, a, &N{Tag: tCase, Kids: []*N{b, es(c)}}, &N{Tag: tDefault, Kids: []*N{es(a)}}),
 			{Tag: tLabel, Vals: []int64{6}, Kids: []*N{es(a)}},
 			nd(tWith, nil, a, es(b)),
-		}
-	}
-	n := len(samples())
-	for i := 0; i < n; i++ {
-		for j := 0; j < n; j++ {
-			for style := 1; style <= 3; style++ {
-				if g.env.Tier != "thorough" && style != 1+(i+j+int(g.env.Seed%3))%3 {
-					continue // quick tier: one style per pair, rotating with the seed
-				}
-				x, y := samples()[i], samples()[j]
-				// context: function f(){ z: while (c) { X Y } }
-				body := nd(tWhile, nil, c, &N{Tag: tBlock, Kids: []*N{x, y}})
-				prog := []*N{{Tag: tFunDecl, Vals: []int64{34}, Kids: []*N{{Tag: tLabel, Vals: []int64{5}, Kids: []*N{body}}}}}
-				g.progCase(prog, "statement-pair", g.r.Intn(2), style)
-			}
-		}
-	}
-	// function declarations and directive-like strings as source elements
-	for style := 1; style <= 3; style++ {
-		for _, x := range samples() {
-			if x.Tag == tReturn || x.Tag == tBreak || x.Tag == tContinue {
-				continue // only valid inside a function / loop
-			}
-			f := &N{Tag: tFunDecl, Vals: []int64{35, 0}, Kids: []*N{nd(tReturn, nil, a)}}
-			g.progCase([]*N{x, f, samples()[0]}, "statement-pair", 1, style)
-			g.progCase([]*N{f, x}, "statement-pair", 1, style)
 		}
 	}
 }
